@@ -265,7 +265,7 @@ func phiName(p *ssa.Phi) string {
 }
 
 func checkC06(p *Program, r *Report) {
-	r.Rule("R06.1", "no hidden carry-over: in every stateful kernel, each value carried around the time loop (header phi other than the induction variable, or memory allocated outside the loop that is read before being written in an iteration) that influences outputs or returned states is initialised from a STATE argument")
+	r.Rule("R06.1", "no hidden carry-over: in every stateful kernel, each value carried around the time loop (header phi other than the induction variable, or memory allocated outside the loop that is written — by an element store, by `copy`, or by a callee whose effect summary says it writes the elements — and read in the loop, unless every element used is rewritten first in each iteration) that influences outputs or returned states is initialised from a STATE argument")
 	r.Rule("R06.2", "nothing carried is dropped: every such carried value reaches a returned state at loop exit")
 	r.Rule("R06.3", "wrapper symmetry: with generated extraction states[i,k] feeds kernel argument nInputs+k and the kernel's k-th state result is written back to states[i,k]; with custom extraction the extract results feed the kernel in order and the kernel's state results feed the pack function in the same order")
 	r.Rule("R06.4", "pack/extract agreement: the contents of every argument of the pack function reach the packed array; every component the extract function returns is read from the state vector; component k is read at the same (symbolic) offset at which it is written")
@@ -608,6 +608,23 @@ func checkCarriedMemory(p *Program, r *Report, k *ssa.Function, key string, l *L
 								get(base).callStores = append(get(base).callStores, x)
 							}
 						}
+					} else if st := structOf(a.Type()); st != nil && callee != nil && callee.Blocks != nil && InModule(callee) && ai < len(callee.Params) {
+						// a small struct wrapping the vector (`uhStore{ordinates, store, n}`) handed to a method or helper
+						for k := 0; k < st.NumFields(); k++ {
+							if !isVec(st.Field(k).Type()) {
+								continue
+							}
+							for _, fv := range structFieldValues(a, k, 0) {
+								base := baseOf(fv)
+								if !definedOutside(base) {
+									continue
+								}
+								get(base).loads = append(get(base).loads, x)
+								if viewWrites(nil2eff(p), bufView{callee, ai, k}, 0) {
+									get(base).callStores = append(get(base).callStores, x)
+								}
+							}
+						}
 					}
 				}
 			}
@@ -680,6 +697,25 @@ func checkCarriedMemory(p *Program, r *Report, k *ssa.Function, key string, l *L
 		}
 		if init {
 			r.OK("R06.1", fmt.Sprintf("%s: carried buffer `%s` is copied from a state argument before the loop", key, name))
+			// … and what it holds at the end has to get back into the states: returned, or copied back into a state
+			// argument after the loop
+			back := valueReturned(k, b)
+			for _, c := range callsIn(k) {
+				if bi, ok := c.Common().Value.(*ssa.Builtin); ok && bi.Name() == "copy" && !l.Blocks[c.Block()] {
+					if _, isState := stateParams[baseOf(c.Common().Args[0])]; isState && baseOf(c.Common().Args[1]) == b {
+						for _, hb := range []*ssa.BasicBlock{l.Header} {
+							if hb.Dominates(c.Block()) {
+								back = true
+							}
+						}
+					}
+				}
+			}
+			if back {
+				r.OK("R06.2", fmt.Sprintf("%s: working copy `%s` is handed back as state", key, name))
+			} else {
+				r.Fail("R06.2", ckey, p.Pos(b.Pos()), fmt.Sprintf("the working copy `%s` of a state buffer is updated every timestep but neither returned nor copied back into the state argument: the next call starts from the old contents", name))
+			}
 			continue
 		}
 		if _, isPrm := b.(*ssa.Parameter); isPrm && len(stateParams) == 0 {
@@ -742,18 +778,11 @@ func constElemWrites(h *ssa.Function, k int) (idxs []int64, ok bool) {
 	return idxs, len(idxs) > 0
 }
 
-// scratchVector: constant-length vector, all in-loop stores at constant indices (directly, or by a helper that does
-// nothing else with it), and for each index some store dominates every in-loop load/use.
+// scratchVector: all in-loop stores to the vector are at constant indices (directly, or by a helper that does nothing
+// else with it), and for each index written some store dominates every in-loop load/use: every element read in an
+// iteration was either rewritten earlier in that iteration or is never written in the loop at all, so nothing is
+// carried from one timestep to the next through it.
 func scratchVector(b ssa.Value, stores []*ssa.Store, callStores []ssa.CallInstruction, loads []ssa.Instruction, l *Loop, baseOf func(ssa.Value) ssa.Value) bool {
-	a, ok := b.(*ssa.Alloc)
-	if !ok {
-		return false
-	}
-	arr, ok := a.Type().Underlying().(*types.Pointer).Elem().Underlying().(*types.Array)
-	if !ok {
-		return false
-	}
-	n := arr.Len()
 	byIdx := map[int64][]ssa.Instruction{}
 	for _, st := range stores {
 		ia := st.Addr.(*ssa.IndexAddr)
@@ -790,12 +819,11 @@ func scratchVector(b ssa.Value, stores []*ssa.Store, callStores []ssa.CallInstru
 		}
 		writer[c.(ssa.Instruction)] = true
 	}
-	for i := int64(0); i < n; i++ {
-		sts := byIdx[i]
-		if len(sts) == 0 {
-			// never written in the loop: read-only element (constant) — fine
-			continue
-		}
+	// elements never written in the loop keep one value throughout (read-only): only the written ones matter
+	if len(byIdx) == 0 {
+		return false
+	}
+	for i, sts := range byIdx {
 		for _, ld := range loads {
 			if writer[ld] {
 				continue // the writing call itself does not read the elements (constElemWrites)
@@ -1528,196 +1556,4 @@ func countingLoop(l *Loop) (*ssa.Phi, ssa.Value, ssa.Value, bool) {
 		return nil, nil, nil, false
 	}
 	return phi, lo, bo.Y, true
-}
-
-// checkBufferRefill (R06.7): a state buffer that is rewritten by a sequence of counting loops is rewritten without a
-// gap or an overlap: the first loop's index range starts at 0 and each further loop's range starts where the
-// previous one ended, as linear forms over the kernel's own quantities (lag, series length, …).
-func checkBufferRefill(p *Program, r *Report, models []*Model) {
-	r.Rule("R06.7", "state buffers are refilled seamlessly: where a kernel rewrites a slice-typed state parameter with counting loops `buf[i+c] = …`, the index range written by the first loop of a branch starts at 0, and the range of each following loop either starts a new pass at 0 or starts exactly where the previous one ended (compared as linear forms; equal lengths are not assumed)")
-	n := 0
-	for _, m := range models {
-		k := m.Kernel
-		if k == nil || len(m.States) == 0 {
-			continue
-		}
-		key := m.RelPkg + "." + k.Name()
-		// atoms of the linear forms: Len calls on the same receiver are one atom
-		atomIDs := map[string]int{}
-		comp := func(v ssa.Value) (int, bool) {
-			var name string
-			switch x := v.(type) {
-			case *ssa.Call:
-				nm := callName(x.Common())
-				if (nm == "Len1" || nm == "Len") && recvOf(x.Common()) != nil {
-					name = fmt.Sprintf("len:%p", origin1(recvOf(x.Common())))
-					if nm == "Len" {
-						if c, ok := constInt(callArgs(x.Common())[0]); ok {
-							name += fmt.Sprint(":", c)
-						}
-					}
-				} else if nm == "len" && len(x.Common().Args) == 1 {
-					name = fmt.Sprintf("len:%p", origin1(x.Common().Args[0]))
-				} else {
-					name = fmt.Sprintf("v:%p", v)
-				}
-			case *ssa.BinOp:
-				if x.Op == token.ADD || x.Op == token.SUB {
-					return 0, false
-				}
-				name = fmt.Sprintf("v:%p", v)
-			case *ssa.Convert:
-				if b, ok := x.X.Type().Underlying().(*types.Basic); ok && b.Info()&types.IsInteger != 0 {
-					return 0, false
-				}
-				name = fmt.Sprintf("v:%p", origin1(x.X)) // int(timeLag): one atom per converted source
-			case *ssa.Parameter, *ssa.Phi, *ssa.Extract:
-				name = fmt.Sprintf("v:%p", v)
-			default:
-				return 0, false
-			}
-			id, ok := atomIDs[name]
-			if !ok {
-				id = len(atomIDs) + 1
-				atomIDs[name] = id
-			}
-			return id, true
-		}
-		// the kernel's own slice-typed state buffers, and the same buffers inside helpers they are handed to
-		type bufIn struct {
-			fn   *ssa.Function
-			prm  *ssa.Parameter
-			name string
-		}
-		var bufs []bufIn
-		isFloatSlice := func(prm *ssa.Parameter) bool {
-			sl, ok := prm.Type().Underlying().(*types.Slice)
-			if !ok {
-				return false
-			}
-			b, ok := sl.Elem().Underlying().(*types.Basic)
-			return ok && b.Info()&types.IsFloat != 0
-		}
-		for _, prm := range k.Params {
-			if isFloatSlice(prm) {
-				bufs = append(bufs, bufIn{k, prm, prm.Name()})
-			}
-		}
-		seenBuf := map[*ssa.Parameter]bool{}
-		for i := 0; i < len(bufs) && i < 32; i++ {
-			b := bufs[i]
-			for _, c := range callsIn(b.fn) {
-				h := c.Common().StaticCallee()
-				if h == nil || h.Blocks == nil || !InModule(h) || h == b.fn {
-					continue
-				}
-				for ai, a := range c.Common().Args {
-					if ai < len(h.Params) && origin1(a) == ssa.Value(b.prm) && isFloatSlice(h.Params[ai]) && !seenBuf[h.Params[ai]] {
-						seenBuf[h.Params[ai]] = true
-						bufs = append(bufs, bufIn{h, h.Params[ai], b.name + " (as `" + h.Params[ai].Name() + "` in " + h.Name() + ")"})
-					}
-				}
-			}
-		}
-		for _, bi := range bufs {
-			buf := bi.prm
-			k := bi.fn
-			loops := findLoops(k)
-			type wr struct {
-				l      *Loop
-				lo, hi linForm
-				pos    token.Pos
-			}
-			var ws []wr
-			for _, l := range loops {
-				phi, lo, hi, ok := countingLoop(l)
-				if !ok {
-					continue
-				}
-				for b := range l.Blocks {
-					if innermostLoop(loops, b) != l {
-						continue
-					}
-					for _, ins := range b.Instrs {
-						st, ok := ins.(*ssa.Store)
-						if !ok {
-							continue
-						}
-						ia, ok := st.Addr.(*ssa.IndexAddr)
-						if !ok || origin1(ia.X) != ssa.Value(buf) {
-							continue
-						}
-						// idx = i + c
-						phiID := -1
-						comp2 := func(v ssa.Value) (int, bool) {
-							if v == ssa.Value(phi) {
-								return 0, true
-							}
-							return comp(v)
-						}
-						_ = phiID
-						idx := linEval(ia.Index, comp2, 0)
-						if !idx.ok || idx.coef[0] != 1 {
-							continue
-						}
-						sub := func(at ssa.Value) linForm {
-							a := linEval(at, comp, 0)
-							if !a.ok {
-								return linForm{}
-							}
-							out := linForm{c: idx.c + a.c, coef: map[int]int64{}, ok: true}
-							for kk, vv := range idx.coef {
-								if kk != 0 {
-									out.coef[kk] += vv
-								}
-							}
-							for kk, vv := range a.coef {
-								out.coef[kk] += vv
-							}
-							return out
-						}
-						ws = append(ws, wr{l: l, lo: sub(lo), hi: sub(hi), pos: st.Pos()})
-					}
-				}
-			}
-			if len(ws) == 0 {
-				continue
-			}
-			sort.Slice(ws, func(i, j int) bool { return ws[i].l.Header.Index < ws[j].l.Header.Index })
-			for i, w := range ws {
-				n++
-				okey := fmt.Sprintf("%s:%s:refill#%d", key, bi.name, i+1)
-				if !w.lo.ok || !w.hi.ok {
-					r.Undecided("R06.7", okey, p.Pos(w.pos), "the index range written by this loop is not a linear form")
-					continue
-				}
-				// nearest earlier writer loop whose header dominates this one (same branch arm)
-				prev := -1
-				for j := i - 1; j >= 0; j-- {
-					if ws[j].l != w.l && ws[j].l.Header.Dominates(w.l.Header) && !ws[j].l.Blocks[w.l.Header] {
-						prev = j
-						break
-					}
-				}
-				if prev < 0 {
-					zero := linForm{coef: map[int]int64{}, ok: true}
-					if w.lo.eq(zero) {
-						r.OK("R06.7", fmt.Sprintf("%s: first rewrite of `%s` in its branch starts at index 0", key, bi.name))
-					} else {
-						r.Fail("R06.7", okey, p.Pos(w.pos), fmt.Sprintf("the first loop that rewrites the state buffer `%s` in this branch starts at index %s, not 0: the front of the buffer keeps stale values", bi.name, w.lo))
-					}
-					continue
-				}
-				zero := linForm{coef: map[int]int64{}, ok: true}
-				if w.lo.eq(zero) {
-					r.OK("R06.7", fmt.Sprintf("%s: rewrite %d of `%s` is a new pass from index 0", key, i+1, bi.name))
-				} else if ws[prev].hi.eq(w.lo) {
-					r.OK("R06.7", fmt.Sprintf("%s: rewrite %d of `%s` continues where the previous loop ended", key, i+1, bi.name))
-				} else {
-					r.Fail("R06.7", okey, p.Pos(w.pos), fmt.Sprintf("the state buffer `%s` is refilled with a gap or an overlap: the previous loop wrote up to index %s, this one starts at %s (#k are the kernel's own quantities: lag, series length); only for particular lengths do the two ranges meet, otherwise values land in the wrong slots or past the end", bi.name, ws[prev].hi, w.lo))
-				}
-			}
-		}
-	}
-	r.Floor("R06.7", "state-buffer rewrite loops", n, 2)
 }
